@@ -54,6 +54,8 @@ ALPHABET = [
     "enterE", "enterPB", "setN", "enterN",
 ]
 EXTRA = ["raiseSystemExit", "raiseGeneratorExit", "raiseBaseException"]
+BOGUS_NAMES = ["not_an_option", "graded", "display", "sort", "retain_coefficient", "names", "e",
+               "bogus_option", "reverse", "varname"]
 EXC = {
     "ValueError": ValueError, "KeyboardInterrupt": KeyboardInterrupt,
     "SystemExit": SystemExit, "GeneratorExit": GeneratorExit,
@@ -170,9 +172,11 @@ class Runner:
                 self.check(pos, step)
                 pos += 1
             elif step == "bad_set":
+                # unknown names of every flavour: unrelated, and pieces / abbreviations of known ones
+                bogus = BOGUS_NAMES[(pos + len(history)) % len(BOGUS_NAMES)]
                 try:
-                    numpoly.set_options(retain_names=not self.state["retain_names"],
-                                        not_an_option=1, sort_graded=False)
+                    numpoly.set_options(**{"retain_names": not self.state["retain_names"],
+                                           bogus: 1, "sort_graded": False})
                     if self.bad is None:
                         self.bad = (pos, "set_options accepted an unknown option", {})
                 except KeyError:
@@ -185,8 +189,9 @@ class Runner:
             elif step == "bad_enter":
                 entered = False
                 try:
-                    with numpoly.global_options(display_inverse=not self.state["display_inverse"],
-                                                bogus_option=True):
+                    bogus = BOGUS_NAMES[(pos + 2 * len(history)) % len(BOGUS_NAMES)]
+                    with numpoly.global_options(**{"display_inverse": not self.state["display_inverse"],
+                                                   bogus: True}):
                         entered = True
                 except KeyError:
                     pass
@@ -321,6 +326,56 @@ def run_random(spec, ctx, runner):
             report(ctx, case, bad, "history")
         ctx.end()
     run_generators(spec, ctx, runner, rng)
+    run_decorators(ctx, runner)
+
+
+def run_decorators(ctx, runner):
+    """global_options(...) used as a function decorator (what contextlib's managers offer):
+    recursion and mutual calls through one decorator object open nested blocks, each of which
+    restores the option set it found."""
+    numpoly = runner.numpoly
+    for depth in (0, 1, 3):
+        for inner_set in ("X", "Y", None):
+            for raising in (False, True):
+                case = {"kind": "decorator", "depth": depth, "set": inner_set, "raising": raising}
+                if not ctx.begin(case):
+                    continue
+                runner.reset()
+                runner.bad = None
+                numpoly.set_options(**OPTS["Y"])
+                runner.state.update(OPTS["Y"])
+                outer = dict(runner.state)
+                deco = numpoly.global_options(**OPTS["B"])
+                seen = []
+
+                @deco
+                def first(n):
+                    seen.append(dict(numpoly.get_options()))
+                    if inner_set:
+                        numpoly.set_options(**OPTS[inner_set])
+                    if n:
+                        second(n - 1)
+                    elif raising:
+                        raise ValueError("from the innermost call")
+
+                @deco
+                def second(n):
+                    first(n)
+
+                try:
+                    first(depth)
+                except ValueError:
+                    pass
+                ctx.count("decorator_scenarios")
+                ctx.evaluated(("decorator", depth, inner_set, raising), True, n=1)
+                expected_inside = dict(outer, **OPTS["B"])
+                if seen and seen[0] != expected_inside and runner.bad is None:
+                    runner.bad = (0, "options inside the decorated call", {})
+                runner.state = outer
+                runner.check(1, "after the decorated call returned")
+                if runner.bad is not None:
+                    report(ctx, case, runner.bad, "decorator")
+                ctx.end()
 
 
 def run_generators(spec, ctx, runner, rng):
